@@ -32,6 +32,7 @@ answered with their issue times (for the "two possibly expired parked logins" ru
 structure DState where
   s : State := {}
   unres : List String := []
+  timer : Bool := false      -- `reset timer=1`: the case runs with the 1 s timer of `PlayerMgr.Start`
   unanswered : Nat → List (Nat × Nat) := fun _ => []
 
 def DState.un (d : DState) (k : String) : Bool := d.unres.contains k
@@ -89,7 +90,7 @@ def expiredNow (s : State) : List Nat :=
 
 inductive Parsed
   | op (o : Op)
-  | reset (unres : List String)
+  | reset (unres : List String) (timer : Bool)
   | bad
 
 def validUid (u : Nat) : Bool := 1 ≤ u && u ≤ nAccts
@@ -98,10 +99,13 @@ def parseOp (ws : List String) (pick : Option Nat) : Parsed :=
   match ws.head? with
   | some "reset" => .reset (match kv ws "unres" with
       | some u => (u.splitOn ",").filter (· ≠ "")
-      | none => [])
+      | none => []) (kvNat ws "timer" == some 1)
   | some "tick" => .op .tick
   | some "adv" => match kvNat ws "ms" with
     | some ms => .op (.adv ms)
+    | none => .bad
+  | some "advt" => match kvNat ws "ms" with
+    | some ms => .op (.advT ms)
     | none => .bad
   | some h =>
     match kvNat ws "u" with
@@ -161,14 +165,16 @@ def step (d : DState) (line : String) : DState × String :=
   let ex := expiredNow s
   match parseOp ws ex.head? with
   | .bad => (d, "bad-op")
-  | .reset un =>
-    let d' : DState := { unres := un }
+  | .reset un tm =>
+    let d' : DState := { unres := un, timer := tm }
     (d', "ok" ++ snapshot d')
   | .op o =>
     if usesScan o && staleUnanswered d ≥ 2 then (d, "nondet")
     else match o with
-    | .adv ms =>
-      if ms == 0 || tooOld s ms then (d, "refused")
+    | .adv ms | .advT ms =>
+      -- time passes either with the timer (`advt`, cases started by `reset timer=1`) or without (`adv`)
+      if d.timer != (match o with | .advT _ => true | _ => false) then (d, "bad-op")
+      else if ms == 0 || tooOld s ms then (d, "refused")
       else
         let r := Cell2v.Center.step s o
         let d' := { d with s := r.1 }
@@ -221,7 +227,7 @@ def specLine (m : Spec.Mon) (line : String) : Spec.Mon × String :=
     else if obs.startsWith "<" then (m, "VIOLATION C18/harness-died " ++ opl)
     else match parseOp ws none with
     | .bad => (m, "ok")
-    | .reset _ => ({}, "ok")
+    | .reset _ _ => ({}, "ok")
     | .op o =>
       if !obs.startsWith "ret=" then (m, "ok")   -- refused / nondet / none: nothing happened
       else
